@@ -216,6 +216,50 @@ var bodies12 = []body12{
 		v, err := hessian.ToObject(b, tm)
 		return decRes(v, err, "")
 	}, true},
+	{"decode a list nested 48 deep and encode it back (own Serializer)", func(s *shared12) string {
+		z := hessian.NewSerializer(s.tm, s.nm)
+		in := append(bytes.Repeat([]byte{0x79}, 48), 0x91)
+		v, err := z.ToObject(in)
+		if err != nil {
+			return "ERR " + err.Error()
+		}
+		depth := 0
+		for x := v; ; depth++ {
+			l, ok := x.([]interface{})
+			if !ok || len(l) != 1 {
+				break
+			}
+			x = l[0]
+		}
+		b, err := z.ToBytes(v)
+		return fmt.Sprint(depth, " ") + encRes(b, err, "")
+	}, false},
+}
+
+// nameFlood decodes values carrying n distinct class, field and type names on throw-away decoders.
+func nameFlood(n int) {
+	str := func(s string) []byte { return append([]byte{byte(len(s))}, s...) }
+	for i := 0; i < n; {
+		var b []byte
+		for len(b) < 60000 && i < n {
+			i++
+			switch i % 3 {
+			case 0:
+				b = append(append(append(b, 'C'), str(fmt.Sprintf("c.F%07d", i))...), 0x92)
+				b = append(append(b, str(fmt.Sprintf("g%07da", i))...), str(fmt.Sprintf("g%07db", i))...)
+			case 1:
+				b = append(append(append(b, 0x71), str(fmt.Sprintf("[t.F%07d", i))...), 0x90)
+			default:
+				b = append(append(append(b, 'M'), str(fmt.Sprintf("m.F%07d", i))...), 'Z')
+			}
+		}
+		d := hessian.NewDecoder(bytes.NewReader(b), map[string]reflect.Type{})
+		for {
+			if _, err := d.ReadObject(); err != nil {
+				break
+			}
+		}
+	}
 }
 
 func min(a, b int) int {
@@ -474,9 +518,12 @@ func init() {
 			if tier != "thorough" {
 				triples = triples[:2]
 			}
-			for _, tr := range triples {
+			for ti, tr := range triples {
 				tr := tr
-				bound := tierPick(tier, 1, 2)
+				bound := 1
+				if tier == "thorough" && (ti == 0 || ti == 4) {
+					bound = 2 // about 1100 points in the three bodies together: 3-4 million schedules; the longer triples keep one preemption
+				}
 				us = append(us, core.Unit{Name: fmt.Sprintf("triple:%v:k%d", tr, bound), Cost: 150 * bound * bound, Run: func(c *core.Ctx) {
 					hit := map[int]bool{}
 					schedBodies(c, tr, bound, hit)
@@ -520,10 +567,12 @@ func init() {
 				c.Cover("quantum")
 				c.Sample("64 threads round-robin with a quantum of 7 statements")
 			}})
-			us = append(us, core.Unit{Name: "race:bodies", Cost: 300, Binary: "race", Run: func(c *core.Ctx) {
-				reps := tierPick(tier, 6, 40)
-				for rep := 0; rep < reps; rep++ {
-					for _, n := range []int{2, 8, 64} {
+			// many threads all inside a deeply nested value at the same time (anything that adds up over the
+			// decoders in progress - nesting levels, buffers in flight - peaks here)
+			us = append(us, core.Unit{Name: "quantum-deep", Cost: 100, Run: func(c *core.Ctx) {
+				deep := nb - 1
+				for _, n := range []int{24, 64} {
+					for q := 1; q <= tierPick(tier, 24, 64); q++ {
 						if !c.Begin() {
 							continue
 						}
@@ -531,43 +580,78 @@ func init() {
 						s := newShared12()
 						idx := make([]int, n)
 						results := make([]string, n)
-						var wg sync.WaitGroup
-						start := make(chan struct{})
-						var pmu sync.Mutex
-						pmsg := ""
+						var fns []func()
 						for k := 0; k < n; k++ {
 							k := k
-							idx[k] = (k + rep) % nb
-							wg.Add(1)
-							go func() {
-								defer wg.Done()
-								defer func() {
-									if x := recover(); x != nil {
-										pmu.Lock()
-										pmsg = fmt.Sprint(x)
-										pmu.Unlock()
-									}
-								}()
-								<-start
-								results[k] = bodies12[idx[k]].run(s)
-							}()
+							idx[k] = deep
+							fns = append(fns, func() { results[k] = bodies12[deep].run(s) })
 						}
-						close(start)
-						wg.Wait()
+						r := sched.New(&sched.Quantum{Q: q}, fns...)
+						r.Execute(&hessian.VerifPointHook)
 						c.Res.States++
-						if pmsg != "" {
-							c.Report(&core.Violation{Stage: "race-pass", Kind: "panic", Shape: "free-running", Message: msgStrict(pmsg), Case: fmt.Sprintf("%d goroutines free-running", n)})
-							continue
-						}
-						verdict12(c, nil, s, idx, results, fmt.Sprintf("%d goroutines free-running under the race detector (rep %d)", n, rep), "free-running")
+						c.Res.Transitions += int64(r.Switches)
+						c.Res.Extra["points_executed"] += int64(r.TotalPoints)
+						verdict12(c, r, s, idx, results, fmt.Sprintf("%d threads all decoding a list nested 48 deep, round-robin, quantum %d statements", n, q), "quantum-deep")
 					}
 				}
-				c.Cover("race:bodies")
+				c.Cover("quantum-deep")
 			}})
+			raceBodies := func(name string, flood bool) core.Unit {
+				return core.Unit{Name: name, Cost: 300, Binary: "race", Run: func(c *core.Ctx) {
+					reps := tierPick(tier, 6, 40)
+					if flood {
+						// process-wide state that only changes after very many distinct names have been seen
+						reps = tierPick(tier, 3, 10)
+						nameFlood(tierPick(tier, 80000, 600000))
+					}
+					for rep := 0; rep < reps; rep++ {
+						for _, n := range []int{2, 8, 64} {
+							if !c.Begin() {
+								continue
+							}
+							c.NontrivialN(1)
+							s := newShared12()
+							idx := make([]int, n)
+							results := make([]string, n)
+							var wg sync.WaitGroup
+							start := make(chan struct{})
+							var pmu sync.Mutex
+							pmsg := ""
+							for k := 0; k < n; k++ {
+								k := k
+								idx[k] = (k + rep) % nb
+								wg.Add(1)
+								go func() {
+									defer wg.Done()
+									defer func() {
+										if x := recover(); x != nil {
+											pmu.Lock()
+											pmsg = fmt.Sprint(x)
+											pmu.Unlock()
+										}
+									}()
+									<-start
+									results[k] = bodies12[idx[k]].run(s)
+								}()
+							}
+							close(start)
+							wg.Wait()
+							c.Res.States++
+							if pmsg != "" {
+								c.Report(&core.Violation{Stage: "race-pass", Kind: "panic", Shape: "free-running", Message: msgStrict(pmsg), Case: fmt.Sprintf("%d goroutines free-running", n)})
+								continue
+							}
+							verdict12(c, nil, s, idx, results, fmt.Sprintf("%d goroutines free-running under the race detector (rep %d)", n, rep), "free-running")
+						}
+					}
+					c.Cover(name)
+				}}
+			}
+			us = append(us, raceBodies("race:bodies", false), raceBodies("race:after-name-flood", true))
 			return us
 		},
 		RequireCover: func(string) []string {
-			l := []string{"instrumented", "quantum", "race:bodies", "cold", "race:cold"}
+			l := []string{"instrumented", "quantum", "quantum-deep", "race:bodies", "race:after-name-flood", "cold", "race:cold"}
 			for i := range bodies12 {
 				if !bodies12[i].nondet {
 					l = append(l, fmt.Sprintf("body:%d", i))
